@@ -15,9 +15,9 @@ import (
 	"time"
 )
 
-const Root = "/verif"
+var Root = envOr("VERIF_ROOT", "/verif")
 
-var BuildDir = envOr("VERIF_BUILD", "/verif/.build")
+var BuildDir = envOr("VERIF_BUILD", Root+"/.build")
 
 func envOr(k, d string) string {
 	if v := os.Getenv(k); v != "" {
